@@ -26,6 +26,7 @@ type SpecEnv struct {
 	topLevel bool   // names are those of the function under verification (not a callee's contract)
 	rangeKey string // ghost visited-set of the map iteration of the loop being specified
 	rangeMap types.Type
+	callName string // callpre clauses: the callee name the clause was written for
 }
 
 func (env *SpecEnv) child() *SpecEnv {
@@ -1001,6 +1002,32 @@ func (env *SpecEnv) evalCall(x *SExpr) (Val, error) {
 				ref = a.sBase()
 			}
 			return Val{T: tBool, S: app(">", ref, env.old.alloc)}, nil
+		case "sincelastcall":
+			// sincelastcall(x), in a callpre clause: the object (or backing array) x was allocated after the previous
+			// call of the same callee made by this function (after its entry, if there was none): the callee is
+			// handed an object of its own each time, never one a previous call already filled
+			a, err := env.eval(args[0])
+			if err != nil {
+				return Val{}, err
+			}
+			ref := a.S
+			if kindOf(a.T) == kSlice {
+				ref = a.sBase()
+			}
+			if _, isI := a.T.Underlying().(*types.Interface); isI {
+				ref = app("iref", a.S) // the object an interface value points to
+			}
+			if env.callName == "" {
+				return Val{}, fmt.Errorf("sincelastcall outside a callpre clause")
+			}
+			key := "X:lastcallalloc:" + env.callName
+			e.keySort[key] = sRef
+			mark := e.heapGet(env.st, key, sRef)
+			e.assume(app(">=", mark, "alloc0"))
+			if e.entry != nil {
+				e.assume(mkEq(e.heapGet(e.entry, key, sRef), "alloc0")) // no such call yet at entry
+			}
+			return Val{T: tBool, S: app(">", ref, mark)}, nil
 		case "sincelastsend":
 			// sincelastsend(x): the object (or the backing array of the slice) x was allocated after the
 			// previous channel send of this function (after its entry, if there was none): a buffer handed to
